@@ -60,6 +60,36 @@ CHECKS = {
     note='Log encoding on disk, putlist bookkeeping and the sharedfile layer exercised, not modelled; nonblocking API through the burst buffer not in the stream yet; library reconfigured with --enable-burst-buffering for this check. Trusted: Lean kernel + 3 axioms, harness/c12_unit.c, harness/apirun.c, Spec/Dataset.lean.',
     technique='Lean 4 proof (induction over the log with fuel = length) + unit correspondence on the real flush function + API-level differential against the specification',
     design='§4 C12'),
+ 'C02': dict(
+    text='Proved: the sort/overlap-merge/coalesce pipeline maps every covered file byte to the buffer byte of the first containing segment and a write-disjoint group moves exactly the byte pairs of the individual requests (merge_spec, merge_disjoint_identity, aggregate_disjoint); the request-queue invariant holds after every history of posts, waits (all forms incl. the three shortcuts) and cancels in which no wait is refused (queue_inv_partial); a wait with an explicit id list completes exactly the named requests once, leaves the rest pending unchanged, resets ids and puts each status in its own slot when no shortcut fires (wait_exact_partial); cancel_spec, post_spec, record_split. Each genuine defect (F4a/F4b shortcut, F13 overlapping iget, refused-wait, numrecs bound) has a counterexample theorem and a fixed replay on the library. Unit stream: merge_requests / type_create_off_len on crafted lists; API stream: random pending multisets completed in random partitions with shuffled/NULL/unknown/repeated ids on 1-3 ranks against the blocking-call oracle and the full queue state of struct NC.',
+    note='wait_equiv_blocking as a whole (vars_flatten, grouping in req_aggregation, construct_filetypes/buffertypes, mgetput) is covered by the blocking-call oracle only, not by a theorem. Trusted: Lean kernel + 3 axioms, harness/c02_*.c.',
+    technique='Lean 4 proof (list algebra of the merge pipeline; queue invariant by induction over histories) + unit and API-level differential correspondence with a blocking-call oracle',
+    design='§4 C02'),
+ 'C03': dict(
+    text='Proved: every layout NC_begins accepts (fresh or after any history of redefinitions, by induction over an unbounded list of phases) obeys the format rules - 4-aligned begins in definition order, no overlap, header fits, record packing rule, requested alignments, nothing moves backwards (begins_wf, history_wf); the written header has exactly the reported size, is decoded by a decoder written from the BNF alone to exactly the defined schema, and is read back by the library model for every chunk size (written_file_valid, written_file_reads_back, header_size_is_bytes_written). The reported-extent statement is refuted for files without variables (genuine defect, counterexample + partial). API histories (all formats, hints, enddef arguments, data-mode updates, redefinitions, clobbering incl. symlinks, no-variable files): model layout = inquiries, header bytes = Lean encoder, and the Lean specification decoder is run on a snapshot of the REAL file.',
+    note='Name character classes and NFC normalisation are not modelled (names normalised by the harness bookkeeping). Trusted: Lean kernel + 3 axioms, harness/c03_api.c.',
+    technique='Lean 4 proof (layout invariant by induction over redefinition histories; encode/decode round trip) + differential correspondence incl. an independent Lean decoder run on real files',
+    design='§4 C03'),
+ 'C04': dict(
+    text='Proved for every byte string and every chunk size: the chunked window reader (transcription of hdr_fetch/hdr_get_*) equals the whole-file reader (chunk_independent); any byte string the BNF-only specification decoder accepts within the library limits is decoded by the library model to exactly that schema, whatever the vsize fields, gaps or trailing bytes (decode_specvalid, valid_file_opens); the library reads its own encoding back exactly (decode_encode); bytes written = reported size. Lean-encoded files with gaps, unaligned begins, stale/saturated vsize, zero-length and multi-chunk attributes, UTF-8 and 256-byte names are read through ncmpio_hdr_get_NC with chunks 36..262144 on 1-4 ranks and through the public API (every inquiry, all data); invalid/truncated files compare model against implementation.',
+    note='valid_file_opens is stated for variables up to 2^31-4 bytes (larger: C18); the dispatcher shape cache is covered by API inquiries only. Trusted: Lean kernel + 3 axioms, harness/c04_*.c.',
+    technique='Lean 4 proof (reader as one program run by a flat and a window interpreter; refinement lemma for every chunk size) + unit (real ncmpio_hdr_get_NC, small chunks) and API-level correspondence on Lean-encoded files',
+    design='§4 C04'),
+ 'C11': dict(
+    text='Model regenerated from the source on every run: a translator (clang AST + abstract interpretation) finds every MPI_File read/write call site, the call chains to the driver entry points and what each function returns when exactly one call fails, plus the error-class map. Proved over the regenerated tables: every MPI class maps to a non-zero NC code; each pattern label is a sound summary for every incoming code; outside the listed exceptions no failure can become NC_NOERR along any path (no_silent_drop_partial, induction over call chains; unexcepted_cases_are_clean by decide +kernel); every listed exception really drops (exceptions_are_real), the full statement is refuted with concrete witnesses (F6, F3, fill). PMPI fault injection at every transfer position of 28 programs (quick: one per distinct site/path, 3 classes; thorough: all positions x 20 classes) compares the API return value with the table prediction; hangs detected by watchdog.',
+    note='"Never leaves other processes blocked" is observed, not proved; the dispatcher layer is exercised but not translated; the intra-node aggregation path is in the tables but not driven. Trusted: Lean kernel + 3 axioms, tools/gen_c11_iosites.py, harness/c11_fault.c.',
+    technique='Lean 4 proof over tables regenerated from the C source (translator) + PMPI fault-injection correspondence',
+    design='§4 C11'),
+ 'C13': dict(
+    text='Proved: byte swap is an involution; the user buffer is restored on every exit (blocking return, wait, cancel) for all API forms, hint settings and flag combinations (user_buffer_restored); the attached-buffer table invariant over all histories (abuf_inv), a bput is refused iff the remaining space is too small (einsuffbuf_iff), reported usage never under-reports (usage_ge_pending); usage = pending bytes is refuted for non-LIFO completion (genuine defect F5) and proved for LIFO histories. Harness: guard zones and slack around every buffer, sizes on both sides of the in-place-swap threshold, all hint settings, gapped buffer types, imap, varn; data of a bput equals the buffer at posting time; usage/refusal against pending bytes.',
+    note='bput_captures and read_touches_only_selected are harness oracles (they depend on MPI_Pack/Unpack). Trusted: Lean kernel + 3 axioms, harness/c13_buf.c.',
+    technique='Lean 4 proof (decision table of buffer flow; allocator invariant by induction) + differential correspondence with guard-zone oracles',
+    design='§4 C13'),
+ 'C14': dict(
+    text='Proved: a two-layer flag model (dispatcher + driver, 38 API kinds, order of tests transcribed) keeps its invariant after every call history of any length (inv_all_histories); both layers always denote the same mode and permission (flags_agree); for every reachable state and call the model step equals the documented automaton written from the documentation (matches_spec; composed by induction into refines_all_histories); a rejected call leaves state and file untouched (rejected_is_noop); only the seven mode-changing calls change the mode. The current source violates the table only through ncmpi_fill_var_rec (genuine defect, counterexample + partial). Exhaustive correspondence: every sequence of mode-changing calls to depth 3 (thorough 4-5) from created/opened-rw/opened-ro followed by ~230 probes, comparing return codes, both raw flag words and file bytes.',
+    note='Argument classes are realised on one fixed schema; where the documentation fixes no order of two argument errors the specification follows the implementation (listed in findings/C14.txt). Trusted: Lean kernel + 3 axioms, harness/c14_mode.c.',
+    technique='Lean 4 proof (invariant by induction over call sequences + finite case analysis against the documented automaton) + exhaustive bounded correspondence',
+    design='§4 C14'),
  'C09': dict(
     text='Every numeric conversion primitive of ncx.c (164 scalar primitives + 97 inlined byte-loop elements) is translated from the current source into Lean on every run and proved equal to the written-from-the-rules specification ConvSpec for ALL input values (integers by omega, floats over exact rationals); whole requests of any length are lifted by proved fold theorems (element independence, first error). Known deviations (NaN, 2^63/2^64, float Inf into double) are proved as counterexamples next to the partial theorems and replayed on the compiled C.',
     note='Trusted: Lean kernel + 3 standard axioms; translator tools/gen_ncx.py (clang AST -> Lean, fail-closed, every generated def also executed against the compiled C on ~10^5 boundary/random inputs); IEEE rounding of C casts is a model parameter; get_ix_/put_ix_ byte codecs and the dispatch in convert_swap.m4 are exercised by the harness, not proved.',
